@@ -24,7 +24,7 @@ def _nt(g, desc):
     return bool(regions(g))
 
 
-check, harness, _jobs, _replay = make(_oracle, stages=(0, 1, 2, 3), nontrivial=_nt)
+check, harness, _jobs, _replay = make(_oracle, stages=(0, 1, 2, 3), nontrivial=_nt, n5_routes=False)
 
 
 # hand-built flat graphs with doubled arcs, self loops and external targets ("all graphs": what from_dict / from_yaml and a
